@@ -12,9 +12,9 @@ INVS = ['FramesMatchStack', 'TopFrameVarsAreLocals', 'FrameTypeDecides', 'OneRes
         'EveryTracepointDelivers']
 
 
-def mc_cfg(shared=False, d=2, k=2, invs=None, cls=('none', 'C'), lives=1, memo=False):
+def mc_cfg(shared=False, d=2, k=2, invs=None, cls=('none', 'C'), lives=1, memo=False, stb=False):
     return dict(constants=dict(MaxDepth=d, MaxActions=k, SharedTable=shared, ClsKinds=set(cls), MaxLives=lives,
-                               AppFlagMemoised=memo),
+                               AppFlagMemoised=memo, SharedTimeBudget=stb),
                 invariants=invs or INVS, deadlock=False)
 
 
